@@ -171,6 +171,18 @@ func (b *bodyReader) runs(a *ablk, top bool) error {
 				if isW(t, "jc") {
 					a.jc, _ = wAttr(t, "val")
 				}
+				if isW(t, "numPr") {
+					a.num = &numRef{}
+					return b.children(func(t xml.StartElement) error {
+						if isW(t, "ilvl") {
+							a.num.ilvl, _ = wAttr(t, "val")
+						}
+						if isW(t, "numId") {
+							a.num.id, _ = wAttr(t, "val")
+						}
+						return b.skip()
+					}, nil)
+				}
 				return b.skip()
 			}, nil)
 		case isW(t, "hyperlink"), isW(t, "ins"), isW(t, "smartTag"), isW(t, "fldSimple"):
@@ -335,6 +347,9 @@ func chString(cs []ch) string {
 func ablkString(a ablk) string {
 	var sb strings.Builder
 	fmt.Fprintf(&sb, "%s style=%q jc=%q ", a.kind, a.style, a.jc)
+	if a.num != nil {
+		fmt.Fprintf(&sb, "numPr(id=%q ilvl=%q) ", a.num.id, a.num.ilvl)
+	}
 	sb.WriteString(chString(a.cs))
 	for _, r := range a.rows {
 		sb.WriteString(" /")
@@ -378,6 +393,8 @@ func pkgreadSelfTest() error {
 </w:t></w:r></w:p>
 <w:p><w:r><w:t xml:space="preserve">x </w:t></w:r><w:r><w:rPr><w:b/><w:i w:val="0"/><w:strike w:val="true"/></w:rPr><w:t> y </w:t></w:r><w:hyperlink><w:r><w:rPr><w:i/></w:rPr><w:t>l</w:t><w:tab/><w:br/></w:r></w:hyperlink>
 <w:r><w:rPr><w:rFonts w:ascii="Cambria Math" w:hAnsi="Cambria Math"/></w:rPr><w:t>a+b</w:t></w:r></w:p>
+<w:p><w:pPr><w:numPr><w:ilvl w:val="2"/><w:numId w:val="7"/></w:numPr><w:jc w:val="left"/></w:pPr><w:r><w:t>• it</w:t></w:r></w:p>
+<w:p><w:pPr><w:numPr><w:numId w:val="9"/></w:numPr></w:pPr></w:p>
 <w:tbl><w:tblPr/><w:tr><w:tc><w:p><w:pPr><w:jc w:val="center"/></w:pPr><w:r><w:t>c1</w:t></w:r></w:p><w:p><w:r><w:t>c2</w:t></w:r></w:p></w:tc><w:tc><w:p/></w:tc></w:tr></w:tbl>
 <w:bookmarkEnd w:id="0"/><w:sectPr/>
 </w:body></w:document>`)
@@ -386,6 +403,8 @@ func pkgreadSelfTest() error {
 		`h style="Heading2" jc="" {0}Head`,
 		`p style="CodeBlock" jc="left" {8}    a < b` + "\n",
 		`p style="" jc="" {0}x {5}y{2}l` + "\t\n" + `{0}a+b`,
+		`p style="" jc="left" numPr(id="7" ilvl="2") {0}• it`,
+		`p style="" jc="" numPr(id="9" ilvl="") `,
 		`tbl style="" jc=""  / |center|{0}c1 c2 ||`,
 	}
 	for _, mask := range []bool{false, true} {
@@ -407,7 +426,7 @@ func pkgreadSelfTest() error {
 	}
 	a, _ := readBody(buf.Bytes(), false)
 	b, _ := readBody(buf.Bytes(), true)
-	if firstDifference(a, a) != "" || firstDifference(a, b) == "" || firstDifference(a, a[:3]) == "" {
+	if firstDifference(a, a) != "" || firstDifference(a, b) == "" || firstDifference(a, a[:3]) == "" || numberingSelfTest() != nil {
 		return fmt.Errorf("package reader self-test: firstDifference is blind or over-eager")
 	}
 	return nil
